@@ -250,6 +250,29 @@ struct Gen
     }
 };
 
+// the session ends while a search is running: `quit` (after or without a stop), or the GUI simply closes the pipe
+// (end of input).  main() then leaves Uci::loop(), destroys the Uci object and exits while the search thread may still run.
+static void exit_during_search(Script& s, Gen& g, Rng& r)
+{
+    int pre = int(r.below(3));
+    for (int i = 0; i < pre; ++i)
+    {
+        g.set_position(gen_position(r, 60, 0));
+        s.ops.push_back(send("go depth " + std::to_string(r.range(1, 4))));
+        s.ops.push_back(simple(OP_AWAIT_BEST));
+    }
+    g.set_position(gen_position(r, 60, 0));
+    s.ops.push_back(send(r.chance(0.6) ? g.unbounded_go() : "go depth " + std::to_string(r.range(3, 12))));
+    bool close = r.chance(0.5);
+    if (!close && r.chance(0.3))
+    {
+        s.ops.push_back(g.windowed("stop", g.draw_window(), r.chance(0.5)));
+        s.ops.push_back(send("quit"));
+    }
+    else
+        s.ops.push_back(g.windowed(close ? "@close" : "quit", g.draw_window(), r.chance(0.5)));
+}
+
 // --------------------------------------------------------------- C06 ------
 // enumerated stop windows (thorough tier): index -> (go kind, window); W0..W3 and W4(k) for k = 1..200,
 // search held in the window until the reader has consumed the stop
@@ -337,6 +360,12 @@ Script gen_c06(uint64_t seed, const std::string& tier, Rng& r)
             s.ops.push_back(simple(OP_AWAIT_READY));
             s.ops.push_back(simple(OP_AWAIT_BEST));
         }
+        return s;
+    }
+    if (r.chance(0.06))
+    {
+        s.cfg.await_task_end = false;
+        exit_during_search(s, g, r);
         return s;
     }
     if (r.chance(0.25)) s.ops.push_back(send("setoption name Logfile value @LOG@"));
@@ -1023,6 +1052,11 @@ Script gen_c10(uint64_t seed, const std::string& tier, Rng& r)
     Gen g(r, s);
     g.common_cfg("C10");
     s.cfg.node_cap = 60000;
+    if (r.chance(0.05))
+    {
+        exit_during_search(s, g, r);
+        return s;
+    }
     uint64_t shape = r.below(100);
     if (shape < 27)
     {
